@@ -52,7 +52,7 @@ struct Ctx {
 impl Ctx {
     fn coq(&mut self, kind: u32, a: u64, b: u64, ops: &[i64], obs: &[i64], case: &Value, force: bool) {
         // kinds 9 and 11 are the runs of kinds 2 and 3 compared with both models: same budget
-        let k = match kind { 9 => 2, 11 => 3, k => (k as usize).min(NK - 1) };
+        let k = match kind { 9 | 12 => 2, 11 => 3, 14 => 7, k => (k as usize).min(NK - 1) };
         if !force && self.used[k] >= self.budget[k] { return; }
         self.used[k] += 1;
         let term = format!(
@@ -913,10 +913,18 @@ fn seq_map_slow(xs: &[i64]) -> Option<Vec<i64>> {
     seq_map(xs, false)
 }
 
+/// the identity of an error the pipeline returns: 1 the stage's own error, 2 "stage timeout", 3 "batch processing
+/// timeout", 4 a panicked stage task (join error), 5 "no stages provided", 9 anything else
+fn err_code(e: &ZiporaError) -> i64 {
+    let m = format!("{:?}", e);
+    if m.contains("batch processing timeout") { 3 } else if m.contains("stage timeout") { 2 } else if m.contains("stage task failed") { 4 }
+    else if m.contains("no stages") { 5 } else if m.contains("stage failed") { 1 } else { 9 }
+}
+
 /// which: 0 MapStage, 1 BatchMapStage without batch fn, 2 BatchMapStage with batch fn, 3 SlowStage (timeouts), 4 SlowStage with default process_batch
 fn batch_case(cx: &mut Ctx, which: u64, enable_batching: bool, xs: &[i64], force: bool) {
     let cell = "Pipeline::process_batch";
-    let case = json!({"cell": "process_batch", "kind": 2, "which": which, "batching": enable_batching, "ops": xs});
+    let case = json!({"cell": "process_batch", "kind": 12, "which": which, "batching": enable_batching, "ops": xs});
     cx.sum.eval(cell, &format!("pb {} {} {:?}", which, enable_batching, xs), xs.len() >= 2);
     let xv = xs.to_vec();
     let r = guarded(|| with_rt(0, async move {
@@ -926,23 +934,35 @@ fn batch_case(cx: &mut Ctx, which: u64, enable_batching: bool, xs: &[i64], force
             if which >= 3 { cfg.stage_timeout = Duration::from_millis(8); }
             let p = Pipeline::new(cfg);
             type Fb = fn(Vec<i64>) -> ZResult<Vec<i64>>;
-            match which {
+            let res = match which {
                 0 => p.process_batch(MapStage::new("m".to_string(), stage), xv).await,
                 1 => p.process_batch(BatchMapStage::<fn(i64) -> ZResult<i64>, Fb>::new("bm".to_string(), stage), xv).await,
                 2 => p.process_batch(BatchMapStage::with_batch_support("bb".to_string(), stage,
                         |b: Vec<i64>| -> ZResult<Vec<i64>> { b.into_iter().map(stage).collect() }), xv).await,
                 3 => p.process_batch(SlowStage { batching: false }, xv).await,
                 _ => p.process_batch(SlowStage { batching: true }, xv).await,
-            }
+            };
+            let st = p.stats().await;
+            (res, st.items_in_flight as i64, st.total_processed as i64)
         }).await
     }));
     let want = if which >= 3 { seq_map_slow(xs) } else { seq_map(xs, false) };
     match r {
         Err(p) => cx.sum.fail(cell, None, case, &format!("panicked: {}", p)),
         Ok(Err(_)) => cx.sum.fail(cell, None, case, "did not return (8 s; 0.7 s when the limit is 0)"),
-        Ok(Ok(res)) => {
-            let got = res.ok();
-            if which < 3 { cx.coq(2, 0, 0, xs, &obs_opt(&got), &case, force); }
+        Ok(Ok((res, in_flight, processed))) => {
+            // the model of process_batch as written: the result with the identity of the error (the first failing item's own
+            // error, the per-item or the whole-batch timeout) and the statistics; for the stages without timeouts preceded
+            // by the result-collection model as before
+            let path = if enable_batching && (which == 2 || which == 4) { 1 } else { 0 };
+            let mut obs: Vec<i64> = vec![];
+            let got = res.as_ref().ok().cloned();
+            if which < 3 { obs.extend(obs_opt(&got)); obs.push(-8); }
+            match &res { Ok(v) => { obs.push(1); obs.extend_from_slice(v); } Err(e) => { obs.push(0); obs.push(err_code(e)); } }
+            obs.push(-7);
+            obs.push(in_flight);
+            obs.push(processed);
+            cx.coq(12, path, (if which >= 3 { 1 } else { 0 }) + (if which < 3 { 2 } else { 0 }), xs, &obs, &case, force);
             if got != want { cx.sum.fail(cell, None, case, &format!("returned {:?}, applying the stage in input order gives {:?}", got, want)); }
         }
     }
@@ -950,18 +970,18 @@ fn batch_case(cx: &mut Ctx, which: u64, enable_batching: bool, xs: &[i64], force
 
 fn single_case(cx: &mut Ctx, xs: &[i64]) {
     let cell = "Pipeline::execute_single/two_stage";
-    cx.sum.cell_status(cell, "S-only");
     for &x in xs {
-        let case = json!({"cell": "single", "kind": 12, "ops": [x]});
+        let case = json!({"cell": "single", "kind": 13, "ops": [x]});
         cx.sum.eval(cell, &format!("sg {}", x), true);
         let r = guarded(|| with_rt(0, async move {
             tokio::time::timeout(HANG, async move {
                 let mut cfg = PipelineConfig::default();
                 cfg.stage_timeout = Duration::from_millis(8);
                 let p = Pipeline::new(cfg);
-                let a = p.execute_single(SlowStage { batching: false }, x).await.ok();
-                let b = p.execute_two_stage(SlowStage { batching: false }, MapStage::new("m".to_string(), stage), x).await.ok();
-                (a, b)
+                let a = p.execute_single(SlowStage { batching: false }, x).await;
+                let b = p.execute_two_stage(SlowStage { batching: false }, MapStage::new("m".to_string(), stage), x).await;
+                let st = p.stats().await;
+                (a, b, st.items_in_flight as i64, st.total_processed as i64)
             }).await
         }));
         let w1 = seq_map_slow(&[x]).map(|v| v[0]);
@@ -969,7 +989,14 @@ fn single_case(cx: &mut Ctx, xs: &[i64]) {
         match r {
             Err(p) => cx.sum.fail(cell, None, case, &format!("panicked: {}", p)),
             Ok(Err(_)) => cx.sum.fail(cell, None, case, "did not return (8 s; 0.7 s when the limit is 0)"),
-            Ok(Ok((a, b))) => {
+            Ok(Ok((a, b, in_flight, processed))) => {
+                let mut obs: Vec<i64> = vec![];
+                for r in [&a, &b] { match r { Ok(v) => { obs.push(1); obs.push(*v); } Err(e) => { obs.push(0); obs.push(err_code(e)); } } }
+                obs.push(-7);
+                obs.push(in_flight);
+                obs.push(processed);
+                cx.coq(13, 0, 0, &[x], &obs, &case, true);
+                let (a, b) = (a.ok(), b.ok());
                 if a != w1 { cx.sum.fail(cell, None, case, &format!("execute_single returned {:?}, want {:?}", a, w1)); }
                 else if b != w2 { cx.sum.fail(cell, None, case, &format!("execute_two_stage returned {:?}, want {:?}", b, w2)); }
             }
@@ -979,10 +1006,10 @@ fn single_case(cx: &mut Ctx, xs: &[i64]) {
 
 /// N items through k map stages over bounded channels; outputs must be the stage composition in input order,
 /// and a failing item must surface as Err (with only a correct prefix delivered)
-fn stream_case(cx: &mut Ctx, rt: usize, nstages: usize, buffer: usize, slow: bool, xs: &[i64]) {
+fn stream_case(cx: &mut Ctx, rt: usize, nstages: usize, buffer: usize, slow: bool, panics: bool, xs: &[i64]) {
     let cell = "Pipeline::execute_stream";
-    let case = json!({"cell": "stream", "kind": 13, "rt": rt, "stages": nstages, "buffer": buffer, "slow": slow, "ops": xs});
-    cx.sum.eval(cell, &format!("st {} {} {} {} {:?}", rt, nstages, buffer, slow, xs), xs.len() >= 2);
+    let case = json!({"cell": "stream", "kind": 14, "rt": rt, "stages": nstages, "buffer": buffer, "slow": slow, "panics": panics, "ops": xs});
+    cx.sum.eval(cell, &format!("st {} {} {} {} {} {:?}", rt, nstages, buffer, slow, panics, xs), xs.len() >= 2);
     let xv = xs.to_vec();
     let n = xs.len();
     let r = guarded(|| with_rt(rt, async move {
@@ -993,6 +1020,8 @@ fn stream_case(cx: &mut Ctx, rt: usize, nstages: usize, buffer: usize, slow: boo
             let p = Pipeline::new(cfg);
             let stages: Vec<Box<dyn PipelineStage<i64, i64>>> = (0..nstages).map(|i| if slow && i == 0 {
                 Box::new(SlowStage { batching: false }) as Box<dyn PipelineStage<i64, i64>>
+            } else if panics {
+                Box::new(MapStage::new("s".to_string(), stage_p)) as Box<dyn PipelineStage<i64, i64>>
             } else {
                 Box::new(MapStage::new("s".to_string(), stage)) as Box<dyn PipelineStage<i64, i64>>
             }).collect();
@@ -1003,7 +1032,7 @@ fn stream_case(cx: &mut Ctx, rt: usize, nstages: usize, buffer: usize, slow: boo
             let _ = feeder.await;
             let mut outs = vec![];
             while let Some(v) = orx.recv().await { outs.push(v); }
-            (res.is_ok(), outs)
+            (res.is_ok(), outs, res.err().map(|e| err_code(&e)).unwrap_or(0))
         }).await
     }));
     // expected: composition of the stages, item by item (the first stage times out on x = 7 mod 32 when slow)
@@ -1011,6 +1040,7 @@ fn stream_case(cx: &mut Ctx, rt: usize, nstages: usize, buffer: usize, slow: boo
         let mut v = x;
         for s in 0..nstages {
             if slow && s == 0 && v.rem_euclid(32) == 7 { return None; }
+            if panics && !(slow && s == 0) && v.rem_euclid(64) == 30 { return None; }
             match stage(v) { Ok(y) => v = y, Err(_) => return None }
         }
         Some(v)
@@ -1021,11 +1051,17 @@ fn stream_case(cx: &mut Ctx, rt: usize, nstages: usize, buffer: usize, slow: boo
     match r {
         Err(p) => cx.sum.fail(cell, None, case, &format!("panicked: {}", p)),
         Ok(Err(_)) => cx.sum.fail(cell, None, case, "did not return (8 s; 0.7 s when the limit is 0)"),
-        Ok(Ok((ok, outs))) => {
-            // the verdict, and the output of a successful run, are schedule-independent: compare with the model
-            let mut obs: Vec<i64> = vec![if ok { 1 } else { 0 }];
-            if ok { obs.extend_from_slice(&outs); }
-            cx.coq(7, nstages as u64, if slow { 1 } else { 0 }, xs, &obs, &case, false);
+        Ok(Ok((ok, outs, code))) => {
+            // the verdict, and the output of a successful run, are schedule-independent: compare with the stream model as
+            // before, then with the model that has the join loop and the error identities (the error returned must be the
+            // error of the first failing item of some stage)
+            let mut obs: Vec<i64> = vec![];
+            if !panics { obs.push(if ok { 1 } else { 0 }); if ok { obs.extend_from_slice(&outs); } obs.push(-8); }
+            obs.push(if ok { 1 } else { 0 });
+            if ok { obs.extend_from_slice(&outs); } else { obs.push(code); }
+            let mut ops: Vec<i64> = vec![code];
+            ops.extend_from_slice(xs);
+            cx.coq(14, nstages as u64, (if slow { 1 } else { 0 }) + (if panics { 2 } else { 0 }), &ops, &obs, &case, false);
             if all_ok {
                 if !ok || outs != want { cx.sum.fail(cell, None, case, &format!("ok={} outputs {:?}, want {:?}", ok, outs, want)); }
             } else if ok {
@@ -1082,6 +1118,105 @@ fn collector_case(cx: &mut Ctx, maxb: usize, timeout_zero: bool, ops: &[i64], fo
                 cx.sum.fail(cell, None, case, "an empty batch was emitted");
             }
             // (batch sizes are compared through the model only: the property does not fix them)
+        }
+    }
+}
+
+const BC_TIMEOUT_MS: u64 = 25;
+const BC_TICK_MS: u64 = 60;
+
+/// BatchCollector against a real clock (M+S).  ops: 1000+x = add x, 1 = flush, 2 = check_timeout, 3 = wait 60 ms;
+/// batch_timeout = 25 ms.  A check_timeout with no wait since the last flush must not fire, one after a wait must
+/// (if the buffer is non-empty).  The Coq case is emitted only when the run was not stalled (a check within 12 ms
+/// of the last flush when no wait lies in between), so that the model's clock is the real one up to the margins.
+fn collector_clock_case(cx: &mut Ctx, maxb: usize, ops: &[i64], force: bool) {
+    let cell = "BatchCollector (clock)";
+    let case = json!({"cell": "collector_clock", "kind": 15, "maxb": maxb, "ops": ops});
+    cx.sum.eval(cell, &format!("bt {} {:?}", maxb, ops), ops.len() >= 3);
+    let opv = ops.to_vec();
+    let r = guarded(|| with_rt(0, async move {
+        tokio::time::timeout(HANG, async move {
+            let c: BatchCollector<i64> = BatchCollector::new(maxb, Duration::from_millis(BC_TIMEOUT_MS));
+            let mut since = Instant::now(); // the last flush as the harness saw it
+            let mut waited = false;
+            let mut stalled = false;
+            let mut batches: Vec<(i64, Vec<i64>)> = vec![];
+            for &o in &opv {
+                if o == 3 { std::thread::sleep(Duration::from_millis(BC_TICK_MS)); waited = true; continue; }
+                if o == 2 && !waited && since.elapsed() > Duration::from_millis(12) { stalled = true; }
+                let b = if o >= 1000 { c.add(o - 1000).await } else if o == 1 { c.flush().await } else { c.check_timeout().await };
+                if o == 2 && !waited && since.elapsed() > Duration::from_millis(12) { stalled = true; }
+                if let Ok(Some(b)) = b { batches.push((if o >= 1000 { 1000 } else { o }, b)); since = Instant::now(); waited = false; }
+            }
+            let rest = c.len().await;
+            let tail = c.flush().await.ok().flatten().unwrap_or_default();
+            (batches, rest, tail, stalled)
+        }).await
+    }));
+    match r {
+        Err(p) => cx.sum.fail(cell, None, case, &format!("panicked: {}", p)),
+        Ok(Err(_)) => cx.sum.fail(cell, None, case, "did not return (8 s)"),
+        Ok(Ok((batches, rest, tail, stalled))) => {
+            let added: Vec<i64> = ops.iter().filter(|&&o| o >= 1000).map(|&o| o - 1000).collect();
+            let mut flat: Vec<i64> = batches.iter().flat_map(|(_, b)| b.iter().cloned()).collect();
+            flat.extend_from_slice(&tail);
+            if stalled { cx.sum.dist("collector_clock_case_stalled_not_compared"); } else {
+                let mut obs: Vec<i64> = vec![];
+                for (o, b) in &batches { obs.push(*o); obs.extend_from_slice(b); obs.push(-1); }
+                obs.push(-2);
+                obs.extend_from_slice(&tail);
+                cx.coq(15, maxb as u64, BC_TIMEOUT_MS * 1000 + BC_TICK_MS, ops, &obs, &case, force);
+            }
+            if flat != added {
+                cx.sum.fail(cell, None, case, &format!("batches {:?} + remainder {:?} are not the added items {:?} in order", batches, tail, added));
+            } else if rest != tail.len() {
+                cx.sum.fail(cell, None, case, &format!("len() = {} but the final flush returned {} items", rest, tail.len()));
+            } else if batches.iter().any(|(_, b)| b.is_empty()) {
+                cx.sum.fail(cell, None, case, "an empty batch was emitted");
+            }
+        }
+    }
+}
+
+/// BatchCollector with its background timeout checker on a multi-thread runtime (S-only): one producer adds 0..n with
+/// pauses, `start_timeout_checker` flushes concurrently.  Every batch (from add, from the checker, the final flush)
+/// must be a run of consecutive items, and the batches together must be exactly 0..n - whatever the interleaving.
+fn collector_checker_case(cx: &mut Ctx, maxb: usize, n: usize, pause_every: usize) {
+    let cell = "BatchCollector/timeout_checker (threads)";
+    let case = json!({"cell": "collector_checker", "kind": 16, "maxb": maxb, "n": n, "pause_every": pause_every, "ops": (0..n as i64).collect::<Vec<i64>>()});
+    cx.sum.eval(cell, &format!("bk {} {} {}", maxb, n, pause_every), n >= 2);
+    cx.sum.cell_status(cell, "S-only");
+    let r = guarded(|| with_rt(2, async move {
+        tokio::time::timeout(HANG, async move {
+            let c: BatchCollector<i64> = BatchCollector::new(maxb, Duration::from_millis(2));
+            let out: Arc<std::sync::Mutex<Vec<Vec<i64>>>> = Arc::new(std::sync::Mutex::new(vec![]));
+            let o2 = out.clone();
+            let h = c.start_timeout_checker(move |b: Vec<i64>| -> Pin<Box<dyn Future<Output = ()> + Send>> {
+                let o3 = o2.clone();
+                Box::pin(async move { o3.lock().unwrap().push(b); })
+            });
+            for i in 0..n as i64 {
+                if let Ok(Some(b)) = c.add(i).await { out.lock().unwrap().push(b); }
+                if pause_every > 0 && (i as usize) % pause_every == pause_every - 1 { tokio::time::sleep(Duration::from_millis(3)).await; }
+            }
+            tokio::time::sleep(Duration::from_millis(6)).await;
+            h.abort();
+            let _ = h.await;
+            if let Ok(Some(b)) = c.flush().await { out.lock().unwrap().push(b); }
+            let v = out.lock().unwrap().clone();
+            v
+        }).await
+    }));
+    match r {
+        Err(p) => cx.sum.fail(cell, None, case, &format!("panicked: {}", p)),
+        Ok(Err(_)) => cx.sum.fail(cell, None, case, "did not return (8 s)"),
+        Ok(Ok(mut batches)) => {
+            let broken = batches.iter().find(|b| b.is_empty() || b.windows(2).any(|w| w[1] != w[0] + 1)).cloned();
+            batches.sort_by_key(|b| b.first().cloned().unwrap_or(-1));
+            let flat: Vec<i64> = batches.iter().flat_map(|b| b.iter().cloned()).collect();
+            let want: Vec<i64> = (0..n as i64).collect();
+            if let Some(b) = broken { cx.sum.fail(cell, None, case, &format!("the batch {:?} is empty or not a run of consecutive items", b)); }
+            else if flat != want { cx.sum.fail(cell, None, case, &format!("the batches {:?} are not the items 0..{} exactly once", batches, n)); }
         }
     }
 }
@@ -1194,11 +1329,17 @@ fn run_one(cx: &mut Ctx, c: &Value) {
         "reduce" => reduce_case(cx, u(&c["which"], 0).min(1), u(&c["rt"], 0) as usize, u(&c["mw"], 2) as usize, &ops, true),
         "process_batch" => batch_case(cx, u(&c["which"], 0).min(4), c["batching"].as_bool().unwrap_or(false), &ops, true),
         "single" => single_case(cx, &ops),
-        "stream" => stream_case(cx, u(&c["rt"], 0) as usize, u(&c["stages"], 1).max(1) as usize, u(&c["buffer"], 1) as usize, c["slow"].as_bool().unwrap_or(false), &ops),
+        "stream" => stream_case(cx, u(&c["rt"], 0) as usize, u(&c["stages"], 1).max(1) as usize, u(&c["buffer"], 1) as usize, c["slow"].as_bool().unwrap_or(false),
+                                c["panics"].as_bool().unwrap_or(false), &ops),
         "collector" => {
             let ops: Vec<i64> = ops.into_iter().filter(|&o| o >= 1000 || o == 1 || o == 2).collect();
             collector_case(cx, u(&c["maxb"], 2) as usize, c["tz"].as_bool().unwrap_or(false), &ops, true)
         }
+        "collector_clock" => {
+            let ops: Vec<i64> = ops.into_iter().filter(|&o| o >= 1000 || (1..=3).contains(&o)).collect();
+            collector_clock_case(cx, u(&c["maxb"], 2).max(1) as usize, &ops, true)
+        }
+        "collector_checker" => collector_checker_case(cx, u(&c["maxb"], 2).max(1) as usize, ops.len(), u(&c["pause_every"], 3) as usize),
         "helper" => helper_case(cx, u(&c["which"], 0).min(6), u(&c["rt"], 0) as usize, u(&c["limit"], 1) as usize, &ops),
         _ => {}
     }
@@ -1235,6 +1376,10 @@ pub fn run(args: &Args) {
             // (9 and 11 count against the budgets of kinds 2 and 3: the same runs, compared with both models)
             let more: [usize; 4] = if args.thorough { [1500, 0, 400, 0] } else { [60, 0, 40, 0] };
             b[8..12].copy_from_slice(&more);
+            // 12 process_batch (budget of kind 2), 13 execute_single/two_stage, 14 execute_stream (budget of kind 7), 15 BatchCollector with a clock
+            b[2] += 20;
+            b[13] = 100;
+            b[15] = if args.thorough { 200 } else { 24 };
             b
         },
         used: [0; NK],
@@ -1244,7 +1389,7 @@ pub fn run(args: &Args) {
     for c in ["WorkStealingQueue", "WorkStealingExecutor::submit", "FiberPool::parallel_map", "concurrency::parallel_map", "concurrency::join_all",
               "FiberPool::spawn_batch", "FiberPool::parallel_reduce", "FiberPool::parallel_for_each", "Pipeline::process_batch", "BatchCollector",
               "WorkStealingExecutor/worker_loop order (1 worker)", "WorkStealingExecutor/history (hook)", "Pipeline::execute_stream",
-              "FiberPool::spawn (semaphore history)"] {
+              "FiberPool::spawn (semaphore history)", "Pipeline::execute_single/two_stage", "BatchCollector (clock)"] {
         cx.sum.cell_status(c, "M+S");
     }
     cx.sum.cell_status("concurrency::parallel_reduce", "S-only");
@@ -1481,7 +1626,7 @@ pub fn run(args: &Args) {
                 cx.rng = r;
                 for which in 0..3u64 { for &b in &[false, true] { batch_case(&mut cx, which, b, &xs, false); } }
                 for &rt in &[0usize, 2] {
-                    for &(st, buf) in &[(1usize, 1usize), (2, 1), (3, 2), (2, 64), (2, 0)] { stream_case(&mut cx, rt, st, buf, false, &xs); }
+                    for &(st, buf) in &[(1usize, 1usize), (2, 1), (3, 2), (2, 64), (2, 0)] { stream_case(&mut cx, rt, st, buf, false, false, &xs); }
                 }
             }
         }
@@ -1498,8 +1643,13 @@ pub fn run(args: &Args) {
             batch_case(&mut cx, 3, false, &xs, false);
             batch_case(&mut cx, 4, true, &xs, false);
             batch_case(&mut cx, 4, false, &xs, false);
-            stream_case(&mut cx, 0, 2, 2, true, &xs);
-            stream_case(&mut cx, 2, 1, 1, true, &xs);
+            stream_case(&mut cx, 0, 2, 2, true, false, &xs);
+            stream_case(&mut cx, 2, 1, 1, true, false, &xs);
+            // a panicking stage function: the stage task dies, execute_stream must return Err (a join error)
+            let mut ys = xs.clone();
+            ys[i] = 64 * (i as i64) + 30;
+            stream_case(&mut cx, 0, 2, 2, false, true, &ys);
+            stream_case(&mut cx, 2, 3, 1, false, true, &ys);
         }
         single_case(&mut cx, &[5, 13, 7, 39, -3, 4]);
         // BatchCollector histories
@@ -1512,6 +1662,34 @@ pub fn run(args: &Args) {
             let tz = r.chance(1, 2);
             cx.rng = r;
             collector_case(&mut cx, maxb, tz, &ops, false);
+        }
+        // BatchCollector against the real clock: check_timeout before and after the batch timeout has passed
+        let nclock = if thorough { 200 } else { 24 };
+        for k in 0..nclock {
+            let mut r = cx.rng.clone();
+            let maxb = *r.pick(&[2usize, 3, 4, 7]);
+            let len = r.range(3, 12) as usize;
+            let mut ticks = 0;
+            let mut ops: Vec<i64> = (0..len).map(|i| match r.below(8) {
+                0..=3 => 1000 + i as i64,
+                4 | 5 => 2,
+                6 => 1,
+                _ => { if ticks < 2 { ticks += 1; 3 } else { 2 } }
+            }).collect();
+            if k % 3 == 0 { ops.extend_from_slice(&[1000 + len as i64, 2, 3, 2, 2]); }
+            cx.rng = r;
+            if k < 1 { cx.sum.sample(json!({"cell": "collector_clock", "maxb": maxb, "ops": ops})); }
+            collector_clock_case(&mut cx, maxb, &ops, false);
+        }
+        // ... and with its background checker on two threads
+        let nchk = if thorough { 60 } else { 8 };
+        for _ in 0..nchk {
+            let mut r = cx.rng.clone();
+            let maxb = *r.pick(&[2usize, 3, 5, 64]);
+            let n = r.range(2, 60) as usize;
+            let pe = *r.pick(&[0usize, 1, 2, 3, 7]);
+            cx.rng = r;
+            collector_checker_case(&mut cx, maxb, n, pe);
         }
     }
 
